@@ -85,6 +85,8 @@ def harness_factory(expr, k, muts):
         root.child = pool[0]
         root.children = [pool[1], pool[1]]        # the same object twice, from the start
         root.mapping = {"a": pool[0]}
+        if steps[0] == "tchild":
+            root.tchild = pool[0]        # a matched trait that already holds a value when further matching traits are added
         keep = [root] + pool             # detached objects stay alive: they must simply not notify
         if steps[0] == "dchild":
             keep.append(G.SHARED)
@@ -243,7 +245,7 @@ def obligations(tier, build):
         elif first == "tkids":
             muts = ["tkids=equal", "tkids_append", "stale_append", "read_default", "child=", "del_tkids"]
         elif first == "tchild":
-            muts = ["tchild=", "read_default", "child="]
+            muts = ["tchild=", "read_default", "child=", "add_tracked2", "add_untracked"]
         elif first == "dchild":
             muts = ["read_default", "dchild=", "dchild=shared", "del_dchild", "child="]
         else:
